@@ -62,6 +62,9 @@ class Firmware:
         self.boot_delay = float(cfg.get("boot", 0.05))
         self.reply_hook = None     # callable(fw, idx, cmd) -> list[str] | None
         self.lat_hook = None       # callable(idx, text) -> extra latency in seconds
+        self.rxpartial = b""
+        self.resend_fmt = cfg.get("resend_fmt", "Resend: {n}")
+        self.ok_style = cfg.get("ok_style", "plain")
         self.rx_hook = None        # callable(fw, idx, text) at arrival
         self.processed_hook = None  # callable(fw, idx) after the reply block was queued
         self.nboots = 0
@@ -75,6 +78,7 @@ class Firmware:
         self.port = port
         self.nboots += 1
         self.last_n = 0
+        self.rxpartial = b""
         self.boot_done_at = self.k.now + self.boot_delay
         if self.greeting:
             for i, g in enumerate(self.greeting.split("\n")):
@@ -123,9 +127,12 @@ class Firmware:
         """Bytes of one host write arrive (after the link delay)."""
         if self.dead:
             return
-        parts = data.split(b"\n")
-        if parts and parts[-1] == b"":
-            parts.pop()
+        # the link is a byte stream: a line is complete only when its newline has arrived
+        self.rxpartial += data
+        parts = self.rxpartial.split(b"\n")
+        self.rxpartial = parts.pop()
+        if self.rxpartial:
+            self.k.probe("fw.partial_line_buffered")
         for raw in parts:
             text = raw.decode("latin1")
             idx = len(self.rx)
@@ -178,7 +185,7 @@ class Firmware:
             s = self.k.ev("dev-reject", idx, bad, self.last_n)
             self.rejected.append({"seq": s, "idx": idx, "why": bad})
             self.emit("Error:%s, Last Line: %d" % (bad, self.last_n), idx)
-            self.emit("Resend: %d" % (self.last_n + 1), idx)
+            self.emit(self.resend_fmt.format(n=self.last_n + 1), idx)
             if self.resend_with_ok:
                 self.emit("ok", idx, True)
             if self.processed_hook is not None:
@@ -193,7 +200,12 @@ class Firmware:
         self.accepted.append({"seq": s, "cmd": cmd, "n": n, "idx": idx})
         rep = self.reply_hook(self, idx, cmd) if self.reply_hook is not None else None
         if rep is None:
-            rep = ["ok"]
+            if self.ok_style == "advanced":
+                rep = ["ok N%d P15 B3" % (n if n is not None else 0)]       # Marlin ADVANCED_OK
+            elif self.ok_style == "temp" and cmd.upper().startswith("M105"):
+                rep = ["ok T:201.3 /200.0 B:60.1 /60.0 @:64 B@:32"]         # reading on the ack line
+            else:
+                rep = ["ok"]
         for j, r in enumerate(rep):
             self.emit(r, idx, j == len(rep) - 1)
         if self.processed_hook is not None:
